@@ -48,7 +48,8 @@ ASSUMPTIONS = [
 BOUNDS = {"quick": "Qst Q1 (tables N<=3), Povmt Q1 m=2 (N<=2) and m=3 (N=1), Qpt Q1 (N=1, at most one schedule off), Qst Q3 (N=1); exact data of every "
                    "alphabet object and typical data N=1e1..1e5 for two truths x {generic, fast} x both flags; 3 datasets x 4 stopping modes x windows {1,3}; "
                    "cvxpy/SCS on every problem; max_iteration 500; sequences of 3 datasets (4 of the 6 orders) through one loss / algorithm / estimator object "
-                   "(calc_estimate_sequence and repeated calc_estimate; pgdb generic+fast, both flags; cvxpy)",
+                   "(calc_estimate_sequence and repeated calc_estimate; pgdb generic+fast, both flags; cvxpy); one algorithm object over every ordered pair of "
+                   "(tomography, flag) with equal variable counts (4, 8, 12 variables)",
           "thorough": "adds: every stopping mode x window {1,2,3} x eps {default, x100; /100 for the loss modes} x {generic, fast} on every core dataset; tables Qst Q1 N=4, Povmt m=2 N=3, "
                       "Povmt m=3 N=2, Qpt N=1 with at most two schedules off, Qst Q3 N=2 with at most two schedules off; SCS eps 1e-6; all 6 dataset orders"}
 EXHAUSTIVE = {"quick": True, "thorough": True}
@@ -231,7 +232,22 @@ def families(tier, seed):
         for kind in ("se", "re"):
             for order in orders:
                 seqs.append({"cfg": cfg, "kind": kind, "datas": [ds[i] for i in order]})
-    return [("core", core), ("stops", stops), ("fewshot", few), ("sequence", seqs)]
+    # one ALGORITHM object used for tomography A and then for tomography B with the same number of variables
+    nvars = {}
+    for cfg in M.CFGS:
+        if os.environ.get("C11_CFGS") and cfg not in os.environ["C11_CFGS"].split(","):
+            continue
+        S = M.setup(cfg, seed)
+        for flag in (True, False):
+            nvars.setdefault(S.F.num_var(flag), []).append((cfg, flag))
+    reuse = []
+    for n, members in sorted(nvars.items()):
+        for a in members:
+            for b in members:
+                if a != b:
+                    for kind in ("se", "re"):
+                        reuse.append({"a": list(a), "b": list(b), "kind": kind, "nvar": n})
+    return [("core", core), ("stops", stops), ("fewshot", few), ("sequence", seqs), ("algo_reuse", reuse)]
 
 
 def guards(summary):
@@ -239,7 +255,7 @@ def guards(summary):
     info = summary["info"]
     need = ["steps_checked", "direction_steps_checked", "runs_stopped_by_criterion", "armijo_halvings_checked", "armijo_alpha_below_one", "boundary_minimisers",
             "interior_minimisers", "kkt_certified", "excess_judged", "competitors_compared", "cvxpy_runs_judged", "agreement_pairs",
-            "agreement_positions", "sequence_elements_compared", "zero_count_tables", "window_sum_decisive", "forward_model_checked", "reference_minimisers_certified"]
+            "agreement_positions", "sequence_elements_compared", "algo_reuse_compared", "zero_count_tables", "window_sum_decisive", "forward_model_checked", "reference_minimisers_certified"]
     for mode in MODES:
         need.append("stopped:" + mode)
     for k in need:
@@ -572,9 +588,69 @@ def ex_sequence(p, seed):
     return out
 
 
+def ex_algo_reuse(p, seed):
+    """the same ProjectedGradientDescentBacktracking object estimates on tomography A, then on tomography B (same number of
+    variables, another parametrisation / type): B's estimate must be as good as the estimate of a fresh algorithm object"""
+    from quara.minimization_algorithm.projected_gradient_descent_backtracking import (
+        ProjectedGradientDescentBacktracking as PGDB, ProjectedGradientDescentBacktrackingOption as PO)
+    from quara.protocol.qtomography.standard.loss_minimization_estimator import LossMinimizationEstimator
+    out = Out()
+    (cfga, fa), (cfgb, fb), kind = p["a"], p["b"], p["kind"]
+    SA, SB = M.setup(cfga, seed), M.setup(cfgb, seed)
+    mode, nhist, eps = STOP1[0]
+    po = PO(mode_stopping_criterion_gradient_descent=MODES[mode], num_history_stopping_criterion_gradient_descent=nhist,
+            eps=eps, max_iteration_optimization=MAXIT)
+    qta, _ = M.qt_of(SA, fa)
+    qtb, (Am, Bv) = M.qt_of(SB, fb)
+    if qta.num_variables != qtb.num_variables:
+        raise HarnessError("algo_reuse: variable counts differ")
+    da = M.dataset(SA, stop_datasets(SA)[1], seed)
+    n = 0
+    for variant in ("", "_fast"):
+        lossname = kind + variant
+        cls = "%s:flag=%s->%s:flag=%s:%s" % (cfga, fa, cfgb, fb, lossname)
+        for dname in stop_datasets(SB):
+            N, qs = M.dataset(SB, dname, seed)
+            L = M.Loss(kind, Am, Bv, np.concatenate(qs))
+            ok1, single = run_pgdb(SB, fb, N, qs, lossname, mode, nhist, eps)
+            algo = PGDB()
+            loss, lopt = lib_objects(lossname)
+            with quiet():
+                oka, ra = A.call(LossMinimizationEstimator().calc_estimate, qta, [(da[0], np.array(q, dtype=np.float64)) for q in da[1]], loss, lopt, algo, po)
+            loss, lopt = lib_objects(lossname)
+            with quiet():
+                okb, rb = A.call(LossMinimizationEstimator().calc_estimate, qtb, [(N, np.array(q, dtype=np.float64)) for q in qs], loss, lopt, algo, po)
+            out.ops += 3
+            if not (ok1 and oka):
+                out.count("algo_reuse_skipped_base_run_raises")
+                continue
+            if not okb:
+                out.fail("pgdb:algorithm-object-reused:raises:%s" % cls, "data %s: %s" % (dname, A.fmt_exc(rb)))
+                continue
+            v1 = np.asarray(single.estimated_var, float).ravel()
+            v2 = np.asarray(rb.estimated_var, float).ravel()
+            out.traces += 1
+            out.count("algo_reuse_compared")
+            n += 1
+            if L.clip_margin(v1) < CLIP_GUARD or L.clip_margin(v2) < CLIP_GUARD:
+                out.count("re_clip_touched")
+                continue
+            tol = tol_excess(mode, eps, float(np.linalg.norm(L.grad(v1))))
+            if L.value(v2) > L.value(v1) + tol:
+                out.fail("pgdb:algorithm-object-reused:estimate-worse-than-fresh-algorithm:%s" % cls,
+                         "data %s: loss %.10g with the algorithm object used before on %s (flag %s), %.10g with a fresh one (allowed %.3g)" % (
+                             dname, L.value(v2), cfga, fa, L.value(v1), tol))
+    out.nontrivial = n > 0
+    inner(out, max(n - 1, 0))
+    out.outcome = "algo_reuse:%s:%s" % (kind, "ok" if not out.fails else "fail")
+    return out
+
+
 def execute(family, p, seed):
     if family == "sequence":
         return ex_sequence(p, seed)
+    if family == "algo_reuse":
+        return ex_algo_reuse(p, seed)
     out = Out()
     cfg, dname, kind = p["cfg"], p["data"], p["kind"]
     S = M.setup(cfg, seed)
